@@ -851,6 +851,14 @@ use core::hash::{Hash, Hasher};
 #[derive(Clone, Copy, Pod, Zeroable, ByteEq, ByteHash)] #[repr(C)] pub struct Key { pub a: u32, pub b: [u8; 8] }
 #[derive(Clone, Copy, Pod, Zeroable, ByteEq, ByteHash)] #[repr(transparent)] pub struct Gen<const N: usize> { pub a: [u8; N] }
 #[derive(Clone, Copy, Pod, Zeroable, ByteEq, ByteHash)] #[repr(C)] pub struct Z0 {}
+#[derive(Clone, Copy, Pod, Zeroable, ByteEq, ByteHash)] #[repr(transparent)] pub struct Arr<const N: usize> { pub a: [u32; N] }
+#[derive(Clone, Copy, Pod, Zeroable, ByteEq, ByteHash)] #[repr(C)] pub struct Wide { pub a: u64, pub b: [u16; 3], pub c: [u8; 2], pub d: u64 }
+// a value and every value that differs from it in exactly one byte (every position): no byte may be ignored
+fn one_byte_variants<T: Pod>(base: T) -> Vec<T> {
+  let n = core::mem::size_of::<T>(); let mut v = vec![base, base];
+  for i in 0..n { let mut x = base; bytemuck::bytes_of_mut(&mut x)[i] ^= 0x40; v.push(x); }
+  v
+}
 
 // three hashers: std's, one that records every call, one that is sensitive to how the bytes are chunked
 #[derive(Default)] pub struct Rec { pub calls: Vec<(u8, Vec<u8>)> }
@@ -907,6 +915,14 @@ pub fn facts() -> String {
   pairs(6, &[Gen::<5> { a: [1, 2, 3, 4, 5] }, Gen::<5> { a: [1, 2, 3, 4, 5] }, Gen::<5> { a: [1, 2, 3, 4, 6] }, Gen::<5> { a: [0; 5] }, Gen::<5> { a: [1, 2, 3, 4, 5] }, Gen::<5> { a: [1, 2, 3, 4, 5] }], &mut out);
   pairs(7, &[Gen::<0> { a: [] }, Gen::<0> { a: [] }], &mut out);
   pairs(8, &[Z0 {}, Z0 {}], &mut out);
+  pairs(9, &one_byte_variants(Gen::<16> { a: [7; 16] }), &mut out);
+  pairs(10, &one_byte_variants(Gen::<17> { a: [9; 17] }), &mut out);
+  pairs(11, &one_byte_variants(Gen::<23> { a: [1; 23] }), &mut out);
+  pairs(12, &one_byte_variants(Gen::<33> { a: [3; 33] }), &mut out);
+  pairs(13, &one_byte_variants(Arr::<5> { a: [5; 5] }), &mut out);
+  pairs(14, &one_byte_variants(Arr::<7> { a: [0x01020304; 7] }), &mut out);
+  pairs(15, &one_byte_variants(Wide { a: 1, b: [2, 3, 4], c: [5, 6], d: 7 }), &mut out);
+  pairs(16, &one_byte_variants(Key { a: 1, b: [0; 8] }), &mut out);
   out.join("|")
 }
 '''
@@ -924,4 +940,4 @@ def bytes_set(tier, seed):
         if not w:
             continue
         lines.append("%s 0 0 0 0 0 0 0 %s - ; V %s ; b0 ; 3" % (w[0], w[1], " ".join(w[2:])))
-    return lines, {"definitions": 8, "modules": 1}, None
+    return lines, {"definitions": 10, "modules": 1}, None
